@@ -49,15 +49,20 @@ ASSUMPTIONS = [
     "pixels are compared with a float32 tolerance).  NaN propagation (a NaN neighbour turns a node into NaN "
     "through 0*NaN) is outside the model",
     "astropy.io.fits writes and reads back header values and float32 data faithfully",
-    "the hand model of compress/expand (decimation, last row/column copy, keyword updates, scipy checks) is tied to "
-    "the code only by this sampled correspondence; nx, ny, lcx, lcy and the node coordinates are regenerated from "
-    "source on every run",
+    "the hand part of the model (decimation, last row/column copy, scipy checks, cell search, bilinear formula, the "
+    "glue around the regenerated pieces) is tied to the code only by this sampled correspondence; nx, ny, lcx, lcy, the "
+    "node coordinates, the CRPIX / scale formulas and dispatch, and the BN_* bookkeeping are regenerated from source "
+    "on every run",
     "int(lc/factor) in expand is Python float division: the theorem that it is 0 is kernel-evaluated for every "
     "factor 1..64 and residual < factor (the property's range); for larger factors the theorems are about the "
     "same expression with the quotient taken in Nat",
 ]
 TRUSTED = ["Gen.C15.nxOf/nyOf/lcxOf/lcyOf regenerated from fits_tools.compress and Gen.C15.nodeRow/nodeCol from "
            "fits_tools.expand by py2lean.py (int mode; np.arange(n) translated element-wise)",
+           "Gen.C15.crpixC1..crpixE2, keyC1..keyE2, upA1..dnB2, bnCfac..bnRpx2, outRows/outCols, bnDeleted: slices cut "
+           "from compress/expand by translator/targets/C15.py (conservative: anything unrecognised is UNTRANSLATABLE "
+           "and the hand fallback stands in), translated by py2lean.py; tied to the code additionally by the header "
+           "correspondence of every case (the driver evaluates the regenerated pieces)",
            "scipy RegularGridInterpolator, astropy.io.fits"]
 PARTIAL = []
 
